@@ -27,6 +27,7 @@ import (
 // decision must be dropped before the next first-bin is evaluated.
 type bisyncRdbReplayState struct {
 	skippedKey string
+	skipping   bool // set together with skippedKey: the empty key name is a legal key
 }
 
 // bisyncRdbGlobalTarget describes one cluster primary that should receive a
@@ -52,22 +53,18 @@ func newBisyncRdbReplayState() *bisyncRdbReplayState {
 // beginKey starts a new logical key and clears the previous key's skip state.
 func (rs *bisyncRdbReplayState) beginKey() {
 	rs.skippedKey = ""
+	rs.skipping = false
 }
 
 // skipKey records that all following bins for the current split key should be ignored.
 func (rs *bisyncRdbReplayState) skipKey(key string) {
-	if key == "" {
-		return
-	}
 	rs.skippedKey = key
+	rs.skipping = true
 }
 
 // shouldSkip reports whether a prior bin already marked the key as ignored.
 func (rs *bisyncRdbReplayState) shouldSkip(key string) bool {
-	if key == "" {
-		return false
-	}
-	return rs.skippedKey == key
+	return rs.skipping && rs.skippedKey == key
 }
 
 // bisyncRdbTargetKey normalizes an RDB key so it matches the key shape used by
@@ -76,7 +73,7 @@ func (ro *RedisOutput) bisyncRdbTargetKey(key []byte) []byte {
 	// The RDB path must honor replace-hashtag as well, otherwise snapshot replay
 	// and incremental replay would write different physical keys.
 	if len(key) == 0 {
-		return nil
+		return []byte{} // the empty key name is a legal key: keep it distinguishable from "no key"
 	}
 	if !ro.cfg.ReplaceHashTag {
 		return key
@@ -201,7 +198,7 @@ func rewriteBisyncRdbCommandKeys(cmd string, args [][]byte, sourceKey []byte, ta
 
 // captureBisyncRdbExpandedCommands expands an RDB object into bisync commands
 // that can be sent as one transactional replay unit.
-func captureBisyncRdbExpandedCommands(e *rdb.BinEntry, sourceKey []byte, targetKey []byte) (cmds []bisyncAofCommand, err error) {
+func captureBisyncRdbExpandedCommands(e *rdb.BinEntry, sourceKey []byte, targetKey []byte, keyed bool) (cmds []bisyncAofCommand, err error) {
 	if e == nil || e.ObjectParser == nil {
 		return nil, nil
 	}
@@ -230,7 +227,7 @@ func captureBisyncRdbExpandedCommands(e *rdb.BinEntry, sourceKey []byte, targetK
 		return nil
 	})
 
-	if e.ExpireAt != 0 && len(targetKey) > 0 {
+	if e.ExpireAt != 0 && keyed {
 		// Expanded native commands do not carry TTL state, so append PEXPIRE to
 		// preserve the original expiration semantics.
 		cmds = append(cmds, bisyncAofCommand{
@@ -361,7 +358,7 @@ func (ro *RedisOutput) buildBisyncRdbGlobalUnit(fullSyncOffset int64, e *rdb.Bin
 		return nil, true, nil
 	}
 
-	commands, err := captureBisyncRdbExpandedCommands(e, nil, nil)
+	commands, err := captureBisyncRdbExpandedCommands(e, nil, nil, false)
 	if err != nil {
 		return nil, false, err
 	}
@@ -504,7 +501,9 @@ func (ro *RedisOutput) buildBisyncRdbReplayUnit(conn client.Redis, fullSyncOffse
 
 	targetKey := ro.bisyncRdbTargetKey(e.Key)
 	globalStandaloneEntry := !ro.cfg.Redis.IsCluster() && (e.ObjectParser.Type() == rdb.RdbObjectFunction || e.ObjectParser.Type() == rdb.RdbObjectAux)
-	hasBusinessKey := len(targetKey) > 0 && !globalStandaloneEntry
+	// every object except function libraries and aux fields lives under a key, possibly the empty one
+	keyed := e.ObjectParser.Type() != rdb.RdbObjectFunction && e.ObjectParser.Type() != rdb.RdbObjectAux
+	hasBusinessKey := keyed && !globalStandaloneEntry
 	targetKeyStr := util.BytesToString(targetKey)
 	if hasBusinessKey && e.FirstBin() {
 		state.beginKey()
@@ -549,7 +548,7 @@ func (ro *RedisOutput) buildBisyncRdbReplayUnit(conn client.Redis, fullSyncOffse
 		}
 		// Fall back to expanded commands for split objects, oversized payloads,
 		// or entry types that cannot be represented by RESTORE.
-		commands, err = captureBisyncRdbExpandedCommands(e, e.Key, targetKey)
+		commands, err = captureBisyncRdbExpandedCommands(e, e.Key, targetKey, hasBusinessKey)
 		if err == nil && hasBusinessKey && e.FirstBin() && ro.cfg.KeyExists == "replace" {
 			// Expanded replay has no RESTORE REPLACE equivalent, so delete the old
 			// key explicitly before sending the replacement commands.
@@ -571,7 +570,7 @@ func (ro *RedisOutput) buildBisyncRdbReplayUnit(conn client.Redis, fullSyncOffse
 	if ro.cfg.Redis.IsCluster() {
 		// Cluster replay still needs a routing slot even though the unit may have
 		// been derived from transformed key bytes.
-		if len(targetKey) == 0 && !globalStandaloneEntry {
+		if !keyed && !globalStandaloneEntry {
 			return nil, false, fmt.Errorf("cluster bisync rdb entry has no key")
 		}
 		slot = redispkg.KeyToSlot(util.BytesToString(targetKey))
